@@ -10,9 +10,9 @@
    reported per formula and line through PrintT and counted in TLC registers; the
    post-condition prints one COUNT line per formula (exercised / failed) and fails
    if the whole trace was not consumed. *)
-EXTENDS Props, Json
+EXTENDS Props, Chain, Json
 
-CONSTANT TraceFile
+CONSTANTS TraceFile, CheckConformance
 
 Trace == ndJsonDeserialize(TraceFile)
 
@@ -23,7 +23,10 @@ X(i) == [pre |-> Trace[i - 1].post, ev |-> Trace[i].ev, out |-> Trace[i].out, po
 
 GhostInit(g) ==
     [supply0 |-> g.post.supply, reward0 |-> g.post.pool.reward, claimable0 |-> ClaimableMilli(g.post),
-     claimedNode |-> 0, dustq |-> 0, dustr |-> 0, cfg |-> g.cfg, start |-> TRUE]
+     claimedNode |-> 0, dustq |-> 0, dustr |-> 0, cfg |-> g.cfg, start |-> TRUE,
+     earn |-> [i \in 1..Len(g.post.workers) |->
+                 LET w == g.post.workers[i]  m == MuAdd(MuOf(w.rew), MuOf(w.income * (g.post.h - w.last)))
+                 IN [a |-> w.a, q |-> m.q, r |-> m.r, cq |-> 0]]]
 
 OrderDust(o) == o.amount * Mega - o.size * o.replica * o.dur
 GhostStep(g, x) ==
@@ -31,13 +34,23 @@ GhostStep(g, x) ==
         wd == Len(SelectSeq(GoneOrders(x), LAMBDA o : o.status = OCompleted))
               + Len(SelectSeq(x.pre.orders, LAMBDA o : HasOrder(x.post, o.id) /\ (OrderOf(x.post, o.id).amount < o.amount \/ OrderOf(x.post, o.id).replica < o.replica)))
         d2 == MuAdd([q |-> g.dustq, r |-> g.dustr], MuAdd(nd, [q |-> wd, r |-> 0]))
-    IN [g EXCEPT !.claimedNode = @ + (IF Kind(x) = "Claim" /\ Ok(x) THEN -Delta(x, "m_node") ELSE 0),
+        \* bytes x blocks stored during this step, per provider (only block steps let time pass)
+        earnAdd(acc, sh) ==
+            LET e == EarnOf([earn |-> acc], sh.sp)
+                blocks == Max2(0, Min2(ShardPaidEnd(sh), x.post.h) - x.pre.h)
+                m == MuAdd([q |-> e.q, r |-> e.r], MuOf(sh.size * blocks))
+            IN Put(acc, "a", [e EXCEPT !.q = m.q, !.r = m.r])
+        earn1 == IF Kind(x) = "Blocks" THEN FoldLeft(earnAdd, g.earn, CompletedShards(x.pre)) ELSE g.earn
+        earn2 == IF Kind(x) = "Claim" /\ Ok(x)
+                 THEN LET e == EarnOf([earn |-> earn1], x.ev.creator) IN Put(earn1, "a", [e EXCEPT !.cq = @ - Delta(x, "m_market")])
+                 ELSE earn1
+    IN [g EXCEPT !.earn = earn2, !.claimedNode = @ + (IF Kind(x) = "Claim" /\ Ok(x) THEN -Delta(x, "m_node") ELSE 0),
                  !.dustq = d2.q, !.dustr = d2.r, !.start = FALSE]
 
 \* ---------------------------------------------------------------------------
 Names == <<
   "C02_NoHalt",
-  "C04_ChargeExact", "C04_ClientEscrowClosed", "C04_RefundToPayerOnly", "C04_OrderEscrowExact", "C04_NoStuckPayment",
+  "C04_ChargeExact", "C04_ClientEscrowClosed", "C04_RefundToPayerOnly", "C04_OrderEscrowExact", "C04_NoStuckPayment", "C04_IncomeIsBytesBlocks",
   "C05_FullRefund", "C05_CleanRollback", "C05_TimeoutRefund", "C05_TimeoutRollback",
   "C06_OrderEscrow", "C06_MarketEscrow", "C06_NodeEscrow", "C06_DidEscrow", "C06_EntitledNeverFails",
   "C07_UsedWithinCap", "C07_ProviderEscrowClosed", "C07_PledgeBackToPledger",
@@ -51,6 +64,7 @@ Names == <<
   "C15_Placement",
   "C16_IdsFresh", "C16_OneInFlight", "C16_BaseIsLatest", "C16_HistoryChain" >>
 
+Bump(i) == TLCSet(i, TLCGet(i) + 1)
 V(app, ok) == [app |-> app, ok |-> ~app \/ ok]
 
 Verdict(name, x, g) ==
@@ -61,6 +75,7 @@ Verdict(name, x, g) ==
     [] name = "C04_RefundToPayerOnly"    -> V(C04_RefundToPayerOnly_app(x), C04_RefundToPayerOnly(x))
     [] name = "C04_OrderEscrowExact"     -> V(TRUE, C04_OrderEscrowExact(s))
     [] name = "C04_NoStuckPayment"       -> V(TRUE, C04_NoStuckPayment(s, g))
+    [] name = "C04_IncomeIsBytesBlocks"  -> V(x.out.result = "ok" \/ IsTx(x), C04_IncomeIsBytesBlocks(s, g))
     [] name = "C05_FullRefund"           -> V(C05_app(x), C05_FullRefund(x))
     [] name = "C05_CleanRollback"        -> V(C05_app(x), C05_CleanRollback(x))
     [] name = "C05_TimeoutRefund"        -> V(C05_Timeout_app(x), C05_TimeoutRefund(x))
@@ -104,8 +119,23 @@ Verdict(name, x, g) ==
     [] name = "C16_BaseIsLatest"         -> V(C16_Update_app(x), C16_BaseIsLatest(x))
     [] name = "C16_HistoryChain"         -> V(TRUE, C16_HistoryChain(x))
 
+\* ---------------------------------------------------------------------------
+\* Conformance: the observed step is the step the specification's transition function takes.
+Core(st) == [k \in (DOMAIN st) \ {"inexact", "junk"} |-> st[k]]
+Diff(a, b) == {k \in (DOMAIN a) \cap (DOMAIN b) : a[k] # b[k]} \cup ((DOMAIN a) \ (DOMAIN b)) \cup ((DOMAIN b) \ (DOMAIN a))
+ConfReg == 2 * Len(Names)
+Conform(i) ==
+    LET r == Apply(gh.cfg, Trace[i - 1].post, Trace[i].ev)
+        obs == Trace[i].out.result
+    IN IF r.res = "unmodelled" THEN Bump(ConfReg + 3)
+       ELSE /\ Bump(ConfReg + 1)
+            /\ IF r.res # obs THEN Bump(ConfReg + 2) /\ PrintT(<<"DIVERGED", i, Trace[i].seq, Trace[i].ev.kind, "result", r.res, obs>>)
+               ELSE IF obs \in {"PANIC", "HANG"} THEN TRUE
+               ELSE IF Core(r.st) # Core(Trace[i].post)
+                    THEN Bump(ConfReg + 2) /\ PrintT(<<"DIVERGED", i, Trace[i].seq, Trace[i].ev.kind, "state", Diff(Core(r.st), Core(Trace[i].post))>>)
+                    ELSE TRUE
+
 \* registers: 2k-1 = times formula k was exercised, 2k = times it failed
-Bump(i) == TLCSet(i, TLCGet(i) + 1)
 CheckStep(i) ==
     \A k \in 1..Len(Names) :
         LET v == Verdict(Names[k], X(i), gh) IN
@@ -116,7 +146,7 @@ TraceInit ==
     /\ l = 1
     /\ Trace[1].kind = "genesis"
     /\ gh = GhostInit(Trace[1])
-    /\ \A k \in 1..(2 * Len(Names)) : TLCSet(k, 0)
+    /\ \A k \in 1..(2 * Len(Names) + 3) : TLCSet(k, 0)
 
 TraceNext ==
     /\ l < Len(Trace)
@@ -126,10 +156,11 @@ TraceNext ==
 TraceSpec == TraceInit /\ [][TraceNext]_vars
 
 \* evaluated by TLC in every state of the (linear) trace behaviour
-Checked == Trace[l].kind = "event" => CheckStep(l)
+Checked == Trace[l].kind = "event" => (CheckStep(l) /\ (CheckConformance => Conform(l)))
 
 Consumed ==
     /\ \A k \in 1..Len(Names) : PrintT(<<"COUNT", Names[k], TLCGet(2 * k - 1), TLCGet(2 * k)>>)
+    /\ PrintT(<<"CONFORMANCE", TLCGet(ConfReg + 1), TLCGet(ConfReg + 2), TLCGet(ConfReg + 3)>>)
     /\ PrintT(<<"CONSUMED", TLCGet("stats").diameter, Len(Trace)>>)
     /\ TLCGet("stats").diameter = Len(Trace)
 =============================================================================
